@@ -9,7 +9,8 @@ PROP = "C04"
 THEOREMS = ["GitAi.Split3.classify_spec", "GitAi.Split3.split_coordinates", "GitAi.Split3.changed_line_position",
             "GitAi.Split3.work_line_cases", "GitAi.Split3.regression_unstaged_deletion",
             "GitAi.Split3.regression_unstaged_replacement_above", "GitAi.Split3.regression_modified_again_stays_pending",
-            "GitAi.Split3.locate_strictMono", "GitAi.Split3.split_outputs_wf",
+            "GitAi.Split3.locate_strictMono", "GitAi.Split3.regression_inner_line_of_block_modified_again",
+            "GitAi.Split3.line_in_unstaged_hunk_not_committed", "GitAi.Split3.split_outputs_wf",
             "GitAi.Sys.every_commit_exact", "GitAi.Sys.pending_line_carried",
             "GitAi.Sys.head_line_not_listed", "GitAi.Sys.recorded_once",
             "GitAi.Sys.regression_pending_edited_before_checkpoint"]
